@@ -1,9 +1,28 @@
 (* C06 — the tie to the source: Subject.countTokenWildcards (v2/types.go, translated on this run into
    Gen/SrcSubject.v), which the mapping and import validation rules count with, is the model's [count_wild_tokens]. *)
-From JWT Require Import Base.GoSem Gen.SrcSubject Model.Validate Proofs.SrcSubject.
+From JWT Require Import Base.GoSem Gen.SrcSubject Gen.SrcValidate Model.Validate Proofs.SrcSubject Proofs.SrcValidate.
 Open Scope string_scope.
 
 Theorem C06_source_count_wild_tokens : forall s : string,
   V2.Subject_countTokenWildcards s = count_wild_tokens s.
 Proof. exact src_count_wild_tokens. Qed.
 Print Assumptions C06_source_count_wild_tokens.
+
+(* Validate methods: what the translated method appends to the validation results (AddError / AddWarning /
+   AddTimeCheck, in order; [goi] maps the model's issue kinds to them) is the model's list of issues *)
+Theorem C06_source_subject_validate : forall (s : string) (vr : list go_issue),
+  V2.Subject_Validate s vr = (vr ++ map goi (v_subject s))%list.
+Proof. exact src_subject_validate. Qed.
+Print Assumptions C06_source_subject_validate.
+Theorem C06_source_latency_validate : forall (l : latency) (vr : list go_issue),
+  V2.ServiceLatency_Validate (lat_results l) (lat_sampling l) vr = (vr ++ map goi (v_latency l))%list.
+Proof. exact src_latency_validate. Qed.
+Print Assumptions C06_source_latency_validate.
+(* Export.Validate: the export is an abstract value; what Info.Validate (url.Parse inside) reports is an observation *)
+Theorem C06_source_export_validate : forall url_of (e : export) (vr : list go_issue),
+  V2.Export_Validate (ex_atp e) (ex_allow_trace e) (map goi (v_info url_of (ex_desc e) (ex_url e)))
+    (lat_results (lat_or_zero (ex_latency e))) (lat_sampling (lat_or_zero (ex_latency e))) (is_none (ex_latency e))
+    (ex_threshold e) (ex_response_type e) (ex_subject e) (ex_type e) false vr
+  = (vr ++ map goi (v_export url_of (Some e)))%list.
+Proof. exact src_export_validate. Qed.
+Print Assumptions C06_source_export_validate.
